@@ -140,7 +140,10 @@ impl<'a> Analyzer<'a> {
                 ref child, lo, hi, ..
             } => {
                 let child_info = self.visit(child)?;
-                min_size = child_info.min_size.saturating_mul(lo);
+                // `x{3,2}` is accepted by the parser and the VM then runs `x` only `hi` times, so
+                // the lower bound must not assume `lo` iterations (an overestimate makes
+                // `(?:x{2,0})*` look like it always consumes text and loop forever on nothing)
+                min_size = child_info.min_size.saturating_mul(lo.min(hi));
                 const_size = child_info.const_size && lo == hi;
                 // The regex crate drops a `{0}` repeat together with any capture groups inside
                 // it, which would shift the numbering of later groups, so such a repeat is kept
